@@ -47,6 +47,7 @@ class Monitor:
         self.depth_checked = 0
         self.max_problems = 4
         self.typemap = None
+        self.suspended = None
         if self.check_types:
             from .typemap import TypeMap
             try:
@@ -86,7 +87,16 @@ class Monitor:
                          {'tick': self.sim.ticks, 'pc': cpu.prev_pc,
                           'line': self.mi.line_of(cpu.prev_pc) if self.mi.has_dbg else None,
                           'kwargs': {k: repr(v) for k, v in kwargs.items()}})
-        return self._orig_trap(code, **kwargs)
+        r = self._orig_trap(code, **kwargs)
+        if armed and fd > 1 and cpu.error_handler_active:
+            # the handler runs on the module-level frame while the frames of
+            # the interrupted call chain (and their stack entries) stay
+            # suspended underneath until RESUME
+            fm = self.frames.get(id(cpu.cur_frame))
+            if fm is not None:
+                self.suspended = (id(cpu.cur_frame),
+                                  len(cpu.stack) - (fm[0] + fm[1]))
+        return r
 
     def problem(self, cls, detail):
         if len(self.problems) < self.max_problems:
@@ -115,6 +125,11 @@ class Monitor:
             if fr is not None:
                 self.depth_checked += 1
                 want = fr[0] + fr[1]
+                if self.suspended is not None:
+                    if not cpu.error_handler_active:
+                        self.suspended = None
+                    elif self.suspended[0] == id(cpu.cur_frame):
+                        want += self.suspended[1]
                 if len(cpu.stack) != want:
                     self.problem('C03:stack-depth',
                                  {'tick': n, 'pc': pc, 'depth': len(cpu.stack),
